@@ -110,7 +110,7 @@ var probeNames = map[string][]string{
 	"c13v4":   {"datagram_reassembled", "datagram_with_options_reassembled", "unfragmented_passthrough", "partial_datagram_discarded", "key_collision_mixed", "hostile_set_reassembled", "8000_fragments_reassembled"},
 	"c13v6":   {"ipv6_reassembled"},
 	"c14pcap": {"exhaustive_cut_sweep", "libpcap_read_pcap"},
-	"c14ng":   {"exhaustive_cut_sweep", "libpcap_read_pcapng", "interface_with_timestamp_offset", "interface_added_between_packets"},
+	"c14ng":   {"exhaustive_cut_sweep", "libpcap_read_pcapng", "interface_with_timestamp_offset", "interface_added_between_packets", "secrets_block_between_packets", "statistics_block_between_packets"},
 	"c15":     {"short_reads_delivered"},
 	"c16":     {"retry_after_transient_error", "cancel_during_read", "zero_copy_nocopy_refused", "three_or_more_packets"},
 	"c20":     {"read_to_eof", "closed_early", "closed_between_batches", "closed_inside_a_batch"},
